@@ -231,6 +231,9 @@ def eq_simplifier(a, b):
             and a.args[0].args[0].op == "BVV"
             and a.args[0].args[0].args[0] == a.args[1].args[0]
         ):
+            # (`(a & expr) & more` is one flattened node: `more` belongs to the conjunction)
+            if len(a.args[0].args) != 2:
+                return a.args[0] != 0
             return a.args[0].args[1] & a.args[0].args[0] != 0
 
     # TODO: all these ==/!= might really slow things down...
@@ -331,6 +334,8 @@ def ne_simplifier(a, b):
             and a.args[0].args[0].op == "BVV"
             and a.args[0].args[0].args[0] == a.args[1].args[0]
         ):
+            if len(a.args[0].args) != 2:
+                return a.args[0] == 0
             return a.args[0].args[1] & a.args[0].args[0] == 0
 
     # Masking and comparing against a constant
